@@ -35,14 +35,23 @@ func recoversPanics(fn *ssa.Function) bool {
 			if cl == nil {
 				continue
 			}
+			// the closure calls recover and never panics itself (a closure that passes some panics on -
+			// "only runtime errors are ours" - lets a panic of reflect's own, a plain string, through)
+			rec, repanic := false, false
 			for _, cb := range cl.Blocks {
 				for _, ci := range cb.Instrs {
-					if c, ok := ci.(*ssa.Call); ok {
+					switch c := ci.(type) {
+					case *ssa.Call:
 						if bi, ok := c.Call.Value.(*ssa.Builtin); ok && bi.Name() == "recover" {
-							return true
+							rec = true
 						}
+					case *ssa.Panic:
+						repanic = true
 					}
 				}
+			}
+			if rec && !repanic {
+				return true
 			}
 		}
 	}
@@ -75,7 +84,7 @@ func userCallFamily(w *World, prop string) ([]*Obligation, []string) {
 				n++
 				pos, src := w.posAndSrc(in)
 				o := &Obligation{Name: fmt.Sprintf("%s/usercall#%d", name, k), Kind: "usercall", Func: name, Pos: pos, Src: src, PC: "true", Props: []string{prop}, Goal: "called under recover",
-					Comment: what + " is called in a function that recovers: a panic in code of the application (or in the wrapper of a method promoted through a nil embedded pointer or interface) is not a panic of the render"}
+					Comment: what + " is called in a function that recovers every panic: a panic in code of the application (or in the wrapper of a method promoted through a nil embedded pointer or interface) is not a panic of the render"}
 				if recoversPanics(fn) {
 					o.Custom = "(set-logic ALL)(assert false)"
 				} else {
